@@ -2274,9 +2274,7 @@ fn collect_embedded_skin_data<R: Read + Seek>(
         // Read indices data (u16 per entry)
         let indices = if n_indices > 0 && ofs_indices > 0 {
             reader.seek(SeekFrom::Start(ofs_indices as u64))?;
-            let mut data = vec![0u8; n_indices as usize * 2];
-            reader.read_exact(&mut data)?;
-            data
+            reader.read_bytes(n_indices as usize * 2)?
         } else {
             Vec::new()
         };
@@ -2284,9 +2282,7 @@ fn collect_embedded_skin_data<R: Read + Seek>(
         // Read triangles data (u16 per entry)
         let triangles = if n_triangles > 0 && ofs_triangles > 0 {
             reader.seek(SeekFrom::Start(ofs_triangles as u64))?;
-            let mut data = vec![0u8; n_triangles as usize * 2];
-            reader.read_exact(&mut data)?;
-            data
+            reader.read_bytes(n_triangles as usize * 2)?
         } else {
             Vec::new()
         };
@@ -2295,9 +2291,7 @@ fn collect_embedded_skin_data<R: Read + Seek>(
         let properties = if n_properties > 0 && ofs_properties > 0 {
             reader.seek(SeekFrom::Start(ofs_properties as u64))?;
             // Properties are typically 4 bytes per entry (bone indices + padding)
-            let mut data = vec![0u8; n_properties as usize * 4];
-            reader.read_exact(&mut data)?;
-            data
+            reader.read_bytes(n_properties as usize * 4)?
         } else {
             Vec::new()
         };
@@ -2305,9 +2299,7 @@ fn collect_embedded_skin_data<R: Read + Seek>(
         // Read submeshes data
         let submeshes = if n_submeshes > 0 && ofs_submeshes > 0 {
             reader.seek(SeekFrom::Start(ofs_submeshes as u64))?;
-            let mut data = vec![0u8; n_submeshes as usize * submesh_size];
-            reader.read_exact(&mut data)?;
-            data
+            reader.read_bytes(n_submeshes as usize * submesh_size)?
         } else {
             Vec::new()
         };
@@ -2316,9 +2308,7 @@ fn collect_embedded_skin_data<R: Read + Seek>(
         // SkinBatch: 2 bytes (flags/priority) + 22 bytes (11 u16 fields) = 24 bytes
         let batches = if n_batches > 0 && ofs_batches > 0 {
             reader.seek(SeekFrom::Start(ofs_batches as u64))?;
-            let mut data = vec![0u8; n_batches as usize * 24];
-            reader.read_exact(&mut data)?;
-            data
+            reader.read_bytes(n_batches as usize * 24)?
         } else {
             Vec::new()
         };
